@@ -202,6 +202,7 @@ func c08(c *Ctx) {
 	}
 	c08ServedInTurn(c, T)
 	c08Linearizable(c, T)
+	c08Hammer(c, T)
 }
 
 func c08BuildFarm(c *Ctx, T time.Duration) *c08Farm {
